@@ -38,6 +38,19 @@ CM_H = 'src/tbb/concurrent_monitor.h'
 CQ_H = 'include/oneapi/tbb/concurrent_queue.h'
 
 MUTANTS = [
+    dict(name='c07-seed2-token-reassigned-at-out-of-order-stage', prop='C07', clause='D6', edits=[(PP_CPP, """        Token token;
+        if( is_ordered ) {
+            if( !info.my_token_ready ) {
+                info.my_token = high_token++;
+                info.my_token_ready = true;
+            }
+            token = info.my_token;
+        } else
+            token = high_token++;""", """        if( !is_ordered || !info.my_token_ready ) {
+            info.my_token = high_token++;
+            info.my_token_ready = true;
+        }
+        Token token = info.my_token;""")]),
     dict(name='c04-seed2-reset-clears-children-hint', prop='C04', clause='D2', edits=[(TGC_CPP, "        ctx.my_exception.store(nullptr, std::memory_order_relaxed);\n    }\n    ctx.my_cancellation_requested = 0;\n}", "        ctx.my_exception.store(nullptr, std::memory_order_relaxed);\n    }\n    ctx.my_cancellation_requested = 0;\n    ctx.my_may_have_children.store(0, std::memory_order_relaxed);\n}")]),
     dict(name='c20-seed-notify-before-recall-flag', prop='C20', clause='D3', edits=[('src/tbb/task.cpp', """        sp->recall_owner();
         // Do not access sp because it can be destroyed after recall
